@@ -75,7 +75,7 @@ var keys = map[string]fn1{
 	"char-code":     {"#'char-code", "char", "int", func(a val) val { return vInt(a.i) }},
 	"char-upcase":   {"#'char-upcase", "char", "", func(a val) val { return vChar(rune(upc(a.i))) }},
 	"char-downcase": {"#'char-downcase", "char", "", func(a val) val { return vChar(rune(downc(a.i))) }},
-	"a2b":           {"(lambda (x) (if (eq x 'a) 'b x))", "sym", "", func(a val) val {
+	"a2b": {"(lambda (x) (if (eq x 'a) 'b x))", "sym", "", func(a val) val {
 		if a.s == "a" {
 			return vSym("b")
 		}
